@@ -24,9 +24,9 @@ EXTRA = {
     "C12": " Also: non-JSON bytes (BOMs, comments, separators) around documents, keys colliding with value/unit under 11 cheap hash functions (offline exhaustive search, re-verified at start-up) and near-miss keys, every JSON string escape in every position, whole numbers beyond 2^53 with fraction/exponent, nesting depths to 9999, refill histories, inputs bordering inaccessible pages. Refusals repeated after the caller edited the returned error. 4,000+ random single-threaded call histories of length 24-32 that dwell on a few steps.",
     "C13": " Also: decimal-structure values (digit groups of zeros/nines under 30 heads, as byte counts and as shortened values of every unit), refused parses between renderings, caller buffers with the formatter's own output as prefix. Sizes constructed just before they are rendered (New with a non-maximal unit in three numeric kinds, text and JSON parsers), on one goroutine. A program that links this package alone (no sibling package of the library) runs a compact sweep against the reference models. Prefixes holding commas and every other separator a grouping routine may use as a placeholder.",
     "C14": " Also: all ordered pairs of 1463 identifier lists over identifiers that rank equal but differ in length, pre-release strings sharing memory, a caller-supplied ComparePreRelease. Latest is judged by the reference order as well as by the library's own Compare.",
-    "C15": " Also: calendar-aligned bounds (first of every month x last three days of every month over 27 years x 6 spans) probed on both sides of every unit boundary, far years, probe histories, one variable passed as both bounds.",
+    "C15": " Also: calendar-aligned bounds (first of every month x last three days of every month over 27 years x 6 spans) probed on both sides of every unit boundary, far years, probe histories, one variable passed as both bounds. Bounds and probes whose years lie more than 2^31 apart.",
     "C16": " Also: prefixes of every size class from 64 bytes to 70 KiB, spare capacities to 4096, nil-buffer results' capacity filled before later results are compared, formatter panics reported with the case. Prefixes containing fmt directives, fmt diagnostics ((MISSING), %!(EXTRA), template/regexp replacement syntax, multi-byte text in front of the formatter's own letters. Caller arrays outgrown by a result are compared again after hundreds of later formatting calls. 4,000+ random single-threaded call histories of length 24-32 that dwell on a few steps. Prefixes of a megabyte and more for every formatter.",
-    "C17": " Also: buffers shared read-only with watcher goroutines, refill histories for all five types, hostile Scan sources (typed nil pointers, Valuers), inputs bordering inaccessible pages. The 14 generic entry points also at json.RawMessage, json.Number and sql.RawBytes; JSON documents that are almost one value; failing inputs of 250..70,000 bytes with the limits raised, printed (Error()) before the buffers are compared. The two-argument helpers at seven mixes of argument types; a string allocated at the address of a collected, parsed string of the same length. Documents with several unknown keys, repeated; for every UnmarshalJSON found at run time, objects built from the type's own field names in which a later member is mistyped.",
+    "C17": " Also: buffers shared read-only with watcher goroutines, refill histories for all five types, hostile Scan sources (typed nil pointers, Valuers), inputs bordering inaccessible pages. The 14 generic entry points also at json.RawMessage, json.Number and sql.RawBytes; JSON documents that are almost one value; failing inputs of 250..70,000 bytes with the limits raised, printed (Error()) before the buffers are compared. The two-argument helpers at seven mixes of argument types; a string allocated at the address of a collected, parsed string of the same length. Documents with several unknown keys, repeated; for every UnmarshalJSON found at run time, objects built from the type's own field names in which a later member is mistyped. Separators at every byte position of number-and-unit texts through every string/bytes pair.",
     "C18": " Also: input-too-long errors re-read after the limit was changed, hostile Scan sources, hostile inputs bordering inaccessible pages (faults reported with the input), five coverage-guided fuzz targets in thorough. Scan sources that contain themselves (maps, slices, structs, pointers); allocation measured on inputs of tens of thousands of digit groups, identifiers, repeated prefixes and JSON members. JSON frames filled with invalid UTF-8 (each byte decodes to three) at every length around the limit.",
     "C19": " Also: bursts of 512/2048/4000 goroutines, a child that draws, stays silent for 35 s (thorough to 310 s) and is then used by goroutines not ordered after the first draw, a garbage-collector churn child (120,000 / 320,000 rounds of two IDs and two collections), an uninstrumented long run of 6.4*10^8 / 3.2*10^9 draws with exact and value-sampled duplicate detection, one child pinned to a single CPU, the global math/rand source reseeded while drawing. GOMAXPROCS 24..100 on 16 cores; a child stopped with SIGSTOP for 1.3 s, 2.5 s and 6 s while 600 goroutines draw (all IDs kept). 42 children that draw exactly 2^k-1, 2^k, 2^k+1 IDs, stay silent for 31 s and draw again, under both timer-channel settings.",
     "C20": " Also: a type whose own Equal/Compare/String are looser than deep equality, values differing in one field only, non-nil errors holding nil pointers, wrapped errors, hooks that rewrite the case, panic values whose methods panic, T instantiated as an interface type. A hand-written predicate that is content with any outcome (optional error). Predicate values shared by all cases, lists and helper calls of the process. Refused unmarshals that leave an empty map or slice that is not nil behind.",
